@@ -1,6 +1,7 @@
 package main
 
 import (
+	"os"
 	"fmt"
 	"go/types"
 	"math/big"
@@ -299,6 +300,16 @@ func (vc *VC) iNeg(a *Term) *Term {
 // truncated division / remainder (Go semantics); divisor assumed non-zero
 func (vc *VC) iQuo(a, b *Term, signed bool) *Term {
 	if vc.isBV() {
+		if k, ok := bvPow2Lit(b); ok && os.Getenv("GOVC_POW2") != "" {
+			// division by 2^k without a divider circuit
+			w := a.S.W
+			sh := BVLit(big.NewInt(int64(k)), w)
+			if !signed {
+				return App("bvlshr", a.S, a, sh)
+			}
+			neg := App("bvslt", SBool, a, BVLit(big.NewInt(0), w))
+			return Ite(neg, App("bvneg", a.S, App("bvlshr", a.S, App("bvneg", a.S, a), sh)), App("bvlshr", a.S, a, sh))
+		}
 		if signed {
 			return App("bvsdiv", a.S, a, b)
 		}
@@ -320,6 +331,15 @@ func (vc *VC) iQuo(a, b *Term, signed bool) *Term {
 }
 func (vc *VC) iRem(a, b *Term, signed bool) *Term {
 	if vc.isBV() {
+		if k, ok := bvPow2Lit(b); ok && os.Getenv("GOVC_POW2") != "" {
+			w := a.S.W
+			mask := BVLit(new(big.Int).Sub(pow2(k), big.NewInt(1)), w)
+			if !signed {
+				return App("bvand", a.S, a, mask)
+			}
+			neg := App("bvslt", SBool, a, BVLit(big.NewInt(0), w))
+			return Ite(neg, App("bvneg", a.S, App("bvand", a.S, App("bvneg", a.S, a), mask)), App("bvand", a.S, a, mask))
+		}
 		if signed {
 			return App("bvsrem", a.S, a, b)
 		}
@@ -444,4 +464,23 @@ func (vc *VC) convInt(v *Term, from, to types.Type) *Term {
 	// narrowing or unsigned->signed same width: wrap into signed range
 	m := App("mod", SInt, App("+", SInt, v, IntLit(pow2(tw-1))), IntLit(pow2(tw)))
 	return App("-", SInt, m, IntLit(pow2(tw-1)))
+}
+
+// bvPow2Lit recognises a bit-vector literal 2^k (k >= 1).
+func bvPow2Lit(t *Term) (int, bool) {
+	if t.S.K != KBV || len(t.Args) != 0 || !strings.HasPrefix(t.Op, "(_ bv") {
+		return 0, false
+	}
+	f := strings.Fields(strings.Trim(t.Op, "()"))
+	if len(f) != 3 {
+		return 0, false
+	}
+	v, ok := new(big.Int).SetString(strings.TrimPrefix(f[1], "bv"), 10)
+	if !ok || v.Sign() <= 0 || v.Cmp(big.NewInt(1)) == 0 {
+		return 0, false
+	}
+	if new(big.Int).And(v, new(big.Int).Sub(v, big.NewInt(1))).Sign() != 0 {
+		return 0, false
+	}
+	return v.BitLen() - 1, true
 }
